@@ -218,7 +218,15 @@ def gen_lark(rng: random.Random, max_depth: int, max_width: int, malformed: bool
 		hist[k] = hist.get(k, 0) + 1
 
 	def token() -> Any:
-		t = lark.Token(rng.choice(TOKEN_TYPES), rng.choice(VALUES))
+		ty = rng.choice(TOKEN_TYPES)
+		if rng.random() < 0.15:
+			# a value that coincides with a piece of the tree's own metadata: its terminal type (as written, lower, upper,
+			# capitalised), another terminal or rule name, a key or a constant of the stored form
+			v = rng.choice([ty, ty.lower(), ty.upper(), ty.capitalize(), rng.choice(TOKEN_TYPES), rng.choice(TOKEN_TYPES).lower(), rng.choice(TREE_NAMES), rng.choice(TREE_NAMES).upper(), 'name', 'value', 'children', 'source_map', 'null', 'None', 'true'])
+			bump('token:value-is-metadata')
+		else:
+			v = rng.choice(VALUES)
+		t = lark.Token(ty, v)
 		r = rng.random()
 		if r < 0.2:
 			bump('token:no-pos')
